@@ -253,15 +253,27 @@ fn c27_majority_scenario(size: u64, steps: usize) {
     crate::vclock::set(0);
     let me: u64 = 1;
     let mut c = mk(me, size, ArrLog::empty());
+    // leftovers of the pre-vote round: any subset of the other nodes is flagged
+    let mut i = 0u64;
+    while i < 5 {
+        if i < size && i != me {
+            c.node_mut(i).voted = kani::any();
+        }
+        i += 1;
+    }
     let reqs = c.election();
     assert!(matches!(c.state, ClusterState::Candidate));
     std::mem::forget(reqs);
+    let my_term = c.term;
     let mut granted = [false; 5];
     let mut k = 0;
     while k < steps {
         let target: u64 = kani::any();
         kani::assume(target < size && target != me);
+        // the term of the Vote request this response answers: the current
+        // candidacy, or an older one (a delayed response)
         let rt: u64 = kani::any();
+        kani::assume(rt <= my_term);
         let kind: u8 = kani::any();
         kani::assume(kind < 3);
         let result = if kind == 0 {
@@ -275,7 +287,8 @@ fn c27_majority_scenario(size: u64, steps: usize) {
         let rq = req(me, target, rt, 0, 0, 0, RequestType::Vote);
         let rs = Response { target: me, result };
         let out = run(c.response(&rq, &rs));
-        if kind == 0 && !was_leader {
+        // a vote counts for this candidacy only if it answers a request of this term
+        if kind == 0 && rt == my_term && !was_leader {
             granted[target as usize] = true;
         }
         let votes = 1
@@ -285,7 +298,8 @@ fn c27_majority_scenario(size: u64, steps: usize) {
             + granted[3] as u64
             + granted[4] as u64;
         if matches!(c.state, ClusterState::Leader) {
-            assert!(votes > size / 2, "C27: node became leader without a majority of distinct votes");
+            assert!(votes > size / 2, "C27: node became leader without a majority of distinct votes cast in its current term");
+            assert!(c.term == my_term, "C27: leader's term differs from the term it campaigned in");
         }
         std::mem::forget(out);
         std::mem::forget(rs);
@@ -298,9 +312,9 @@ fn c27_majority_scenario(size: u64, steps: usize) {
     std::mem::forget(c);
 }
 
-//@ id=C27 crate=raft tier=quick timeout=900 mem=16 bounds="candidate of a 3-node cluster (real election() from the initial state); 2 responses with symbolic responder, echoed request term and result (Ok / TermMismatch / AlreadyVoted)" desc="a candidate becomes leader only after Ok responses to Vote requests from strictly more than size/2 distinct nodes counting itself" kernel="Cluster::response,Cluster::vote_received,Cluster::election"
+//@ id=C27 crate=raft tier=quick timeout=900 mem=16 bounds="candidate of a 3-node cluster (real election() from the initial state); 2 responses with symbolic responder, echoed request term and result (Ok / TermMismatch / AlreadyVoted)" desc="a candidate becomes leader only after Ok responses to Vote requests OF ITS CURRENT TERM from strictly more than size/2 distinct nodes counting itself; pre-vote leftovers and delayed responses of older candidacies do not count" kernel="Cluster::response,Cluster::vote_received,Cluster::election"
 #[kani::proof]
-#[kani::unwind(5)]
+#[kani::unwind(7)]
 fn c27_leader_only_with_majority_3_nodes() {
     c27_majority_scenario(3, 2);
 }
@@ -310,6 +324,101 @@ fn c27_leader_only_with_majority_3_nodes() {
 #[kani::unwind(7)]
 fn c27_leader_only_with_majority_5_nodes() {
     c27_majority_scenario(5, 3);
+}
+
+fn c27_any_node() -> (C, u64) {
+    crate::vclock::set(0);
+    let mut c = mk(2, 3, ArrLog::empty());
+    let my_li: u64 = kani::any();
+    let my_lt: u64 = kani::any();
+    let my_lc: u64 = kani::any();
+    kani::assume(my_lc <= my_li && my_li <= 5 && my_lt <= 7);
+    c.local_mut().log_index = my_li;
+    c.local_mut().log_term = my_lt;
+    c.local_mut().log_commit = my_lc;
+    let s: u8 = kani::any();
+    kani::assume(s < 5);
+    c.state = if s == 0 {
+        ClusterState::Election
+    } else if s == 1 {
+        ClusterState::Follower(0)
+    } else if s == 2 {
+        ClusterState::Voted(kani::any())
+    } else if s == 3 {
+        ClusterState::Candidate
+    } else {
+        ClusterState::Leader
+    };
+    let t0: u64 = kani::any();
+    kani::assume(t0 <= 7);
+    c.term = t0;
+    c.node_mut(0).voted = kani::any();
+    c.node_mut(1).voted = kani::any();
+    advance_clock();
+    (c, t0)
+}
+
+//@ id=C27 crate=raft tier=quick timeout=1200 mem=16 bounds="node 2 of a 3-node cluster in an arbitrary state (symbolic state incl. Candidate/Leader, term <= 7, log bookkeeping, vote flags); ONE arbitrary response to a Vote, PreVote or Heartbeat request of any term; result Ok, TermMismatch or AlreadyVoted with symbolic values" desc="no response, however stale or delayed, decreases a node's term (it could otherwise vote or lead a second time in a term it had left)" kernel="Cluster::response,Cluster::vote_received,Cluster::pre_vote_received"
+#[kani::proof]
+#[kani::unwind(6)]
+fn c27_term_never_decreases_on_response() {
+    let (mut c, t0) = c27_any_node();
+    let target: u64 = kani::any();
+    kani::assume(target < 2);
+    let k: u8 = kani::any();
+    kani::assume(k < 3);
+    let rterm: u64 = kani::any();
+    let data = if k == 0 {
+        RequestType::Vote
+    } else if k == 1 {
+        RequestType::PreVote
+    } else {
+        RequestType::Heartbeat
+    };
+    let rq = req(2, target, rterm, kani::any(), kani::any(), kani::any(), data);
+    let rk: u8 = kani::any();
+    kani::assume(rk < 3);
+    let result = if rk == 0 {
+        ResponseType::Ok
+    } else if rk == 1 {
+        ResponseType::TermMismatch(MismatchedValues { local: Some(kani::any()), requested: Some(rterm) })
+    } else {
+        ResponseType::AlreadyVoted(MismatchedValues { local: Some(kani::any()), requested: Some(rterm) })
+    };
+    let rs = Response { target: 2, result };
+    let out = run(c.response(&rq, &rs));
+    assert!(c.term >= t0, "C27: the node's term decreased");
+    kani::cover!(c.term > t0, "term raised by a response");
+    kani::cover!(matches!(c.state, ClusterState::Leader) && k == 0 && rk == 0, "vote response made or kept a leader");
+    kani::cover!(true, "end of harness reachable");
+    std::mem::forget(out);
+    std::mem::forget(rs);
+    std::mem::forget(rq);
+    std::mem::forget(c);
+}
+
+//@ id=C27 crate=raft tier=quick timeout=1200 mem=16 bounds="same arbitrary node state; ONE Vote or PreVote request with fully symbolic header (sync entry points)" desc="no vote or pre-vote request decreases a node's term; a granted vote leaves the node in the candidate's term" kernel="Cluster::vote_request,Cluster::pre_vote_request"
+#[kani::proof]
+#[kani::unwind(6)]
+fn c27_term_never_decreases_on_vote_request() {
+    let (mut c, t0) = c27_any_node();
+    let pre: bool = kani::any();
+    let rterm: u64 = kani::any();
+    let rq = req(0, 2, rterm, kani::any(), kani::any(), kani::any(), if pre { RequestType::PreVote } else { RequestType::Vote });
+    let granted = if pre { c.pre_vote_request(&rq).is_ok() } else { c.vote_request(&rq).is_ok() };
+    assert!(c.term >= t0, "C27: the node's term decreased");
+    if granted && !pre {
+        assert!(c.term == rterm, "C27: a node that granted its vote is not in the candidate's term");
+        assert!(rterm > t0, "C27: vote granted for a term the node had already reached");
+    }
+    if pre {
+        assert!(c.term == t0, "C27: a pre-vote changed the node's term");
+    }
+    kani::cover!(granted && !pre, "vote granted");
+    kani::cover!(granted && pre, "pre-vote granted");
+    kani::cover!(true, "end of harness reachable");
+    std::mem::forget(rq);
+    std::mem::forget(c);
 }
 
 // ---------------------------------------------------------------------------
